@@ -115,13 +115,15 @@ def run(ctx):
   # negative controls: (1) drop one wake-up signal, (2) a callback run by a foreign thread
   base = groups[("A", "t")][0]
   bad1 = [e for e in copy.deepcopy(base)]
-  k = max(i for i, e in enumerate(bad1) if e["op"] == "ev.set")
-  del bad1[k]
+  ks = [i for i, e in enumerate(bad1) if e["op"] in ("ev.set", "hubpipe.ping", "ready.append", "calls.append")]
+  del bad1[ks[-1] if ks else 0]
   bad2 = copy.deepcopy(base)
   for e in bad2:
     if e["op"] == "run" and e["arg"][0] == "F":
       e["th"] = "F1"
       break
+  else:
+    bad2[0]["th"] = "H" if bad2[0]["th"] != "H" else "S"
   groups[("A", "t")] = groups[("A", "t")] + [bad1, bad2]
   nneg = 2
   total = 0
